@@ -98,6 +98,25 @@ validations:
 """
 
 
+def deep_lexical_data():
+    """a chain on which quantified constraints nested five deep fail at the bottom, every node with a lexical entry
+    (ids of report nodes grow with the depth; locations add sibling sub-trees)"""
+    ex = "http://example.org/ns#"
+    g = []
+    names = ["http://example.org/d%d" % i for i in range(8)]
+    for i, nid in enumerate(names):
+        node = {"@id": nid, "@type": [ex + "T"] if i == 0 else [ex + "C"]}
+        if i + 1 < len(names):
+            for prop in ("child0", "child1", "c1", "c2", "c3", "c4"):
+                node[ex + prop] = [{"@id": names[i + 1]}]
+        g.append(node)
+        g.append({"@id": nid + "/source-map", "@type": [SM + "SourceMap"], SM + "lexical": [{"@id": nid + "/sm/e0"}]})
+        g.append({"@id": nid + "/sm/e0", SM + "element": nid, SM + "value": "[(%d,1)-(%d,9)]" % (i + 1, i + 2)})
+    g.append({"@id": "amf://id/BaseUnitSourceInformation", "@type": ["http://a.ml/vocabularies/document#BaseUnitSourceInformation"],
+              "http://a.ml/vocabularies/document#rootLocation": "file:///deep.raml"})
+    return json.dumps(g)
+
+
 def run(tier):
     t0 = time.time()
     V = vlib.Verdict("C06")
@@ -117,6 +136,7 @@ def run(tier):
         for d in (1, 2, 3):
             inputs.append(("quant-s%d-d%d" % (s, d), quantified_profile(s, d, 2), DATA))
     inputs.append(("duplicate-lexical-entries", quantified_profile(2, 1, 1), DUP_LEX_DATA))
+    inputs.insert(1, ("deep-with-lexical", quantified_profile(2, 5, 1), deep_lexical_data()))
     inputs.insert(0, ("repeated-list-values", REPEATED_VALUES_PROFILE, DATA))
     inputs.append(("rich", c15.RICH_PROFILE, c15.RICH_DATA))
     inputs.append(("ok", corpus.OK_PROFILE, c09.DOCS["fail3"]))
